@@ -96,6 +96,7 @@ type W struct {
 	inHook    bool
 	allowInit bool
 	stubMode  int
+	allocMute int
 	pcSet     map[int32]struct{}
 	obligs    []oblig
 	nextOb    int
@@ -700,6 +701,10 @@ func (w *W) store(p Ptr, v Value, pos token.Pos) {
 	if !ok {
 		panic("store: bad pointer")
 	}
+	if w.shared[p.O] != "" {
+		// publication: what a shared object points to must never be written again
+		w.freezeReachable(v, map[any]bool{})
+	}
 	if p.O.Init && w.inInit == 0 {
 		w.undo = append(w.undo, undoRec{p: p, old: *cell})
 		if w.e.opts.GlobalWriteIsViolation {
@@ -865,6 +870,11 @@ func (w *W) callFunc(fn *ssa.Function, args []Value, env []Value, pos token.Pos)
 	}
 	w.depth++
 	defer func() { w.depth-- }()
+	if w.countAllocs && w.allocMute == 0 && isHarnessFn(fn) {
+		// the harness's own writer / handler run inside ServeHTTP: not the middleware's allocations
+		w.allocMute++
+		defer func() { w.allocMute-- }()
+	}
 	fr := &frame{fn: fn, regs: make(map[ssa.Value]Value, 16), env: env}
 	for i, p := range fn.Params {
 		fr.regs[p] = args[i]
@@ -878,6 +888,19 @@ func (w *W) callFunc(fn *ssa.Function, args []Value, env []Value, pos token.Pos)
 		w.runBlock(fr)
 	}
 	return fr.result
+}
+
+func isHarnessFn(fn *ssa.Function) bool {
+	for f := fn; f != nil; f = f.Parent() {
+		n := f.Name()
+		if strings.HasPrefix(n, "zz") {
+			return true
+		}
+		if r := f.Signature.Recv(); r != nil && strings.Contains(r.Type().String(), ".zz") {
+			return true
+		}
+	}
+	return false
 }
 
 // callValue calls a function value (closure, builtin).
@@ -990,7 +1013,7 @@ func (w *W) runBlock(fr *frame) {
 			} else {
 				fr.block = b.Succs[1]
 			}
-			if w.countAllocs && fr.fn.Pkg == w.e.rootPkg && !strings.HasPrefix(fr.fn.Name(), "zz") {
+			if w.countAllocs && fr.fn.Pkg == w.e.rootPkg && !isHarnessFn(fr.fn) {
 				w.corsBranch = append(w.corsBranch, fmt.Sprintf("%s#%d:%v;", fr.fn.Name(), b.Index, taken)...)
 			}
 			return
